@@ -47,10 +47,11 @@ import (
 const pruneCountKey = "viper:server_chain.state.prune_below_count"
 
 type fblk struct {
-	b     *block.Block      // the primary's block
-	want  map[string][]byte // model: full state of the block (leaf path -> value bytes), captured at assembly
-	saved bool              // the block's state root is on the follower's disk (its SaveChanges batch was written, on any incarnation)
-	have  bool              // delivered to the current incarnation of the follower
+	b      *block.Block      // the primary's block
+	want   map[string][]byte // model: full state of the block (leaf path -> value bytes), captured at assembly
+	saved  bool              // the block's state root is on the follower's disk (its SaveChanges batch was written, on any incarnation)
+	have   bool              // delivered to the current incarnation of the follower
+	orphan bool              // on a branch the chain abandoned (a sibling block was finalised for its round or an earlier one)
 }
 
 type bsh27 struct{ f *follower }
@@ -538,7 +539,7 @@ func (f *follower) refreshSaved(ndb util.NodeDB) {
 	lfb := f.rp.C.GetLatestFinalizedBlock().Round
 	fresh := false
 	for _, fb := range f.blocks {
-		if fb.saved {
+		if fb.saved || fb.orphan {
 			continue
 		}
 		// finalised (at or below the LFB of the live process / the LFB the node restarted at) and its root on
@@ -612,7 +613,7 @@ func (f *follower) check(ndb util.NodeDB, when string) {
 	}
 	n := 0
 	for _, fb := range f.blocks {
-		if !fb.saved || fb.b.Round < f.floor {
+		if !fb.saved || fb.orphan || fb.b.Round < f.floor {
 			continue
 		}
 		n++
@@ -654,7 +655,7 @@ func (f *follower) whoPruned(err error) string {
 }
 
 // restart rebuilds the follower from its disk alone.
-func (f *follower) restart(why string) {
+func (f *follower) restart(why string, forced ...*fblk) {
 	defer timeSect("restart(incl)")()
 	if f.lost {
 		return
@@ -669,7 +670,10 @@ func (f *follower) restart(why string) {
 	}
 	// which block does the node come back at? what the shipped code recorded as LFB in the state DB
 	head := rp.Genesis
-	if lr, err := rp.C.LoadLFBRound(); err == nil {
+	if len(forced) > 0 {
+		// LFB rollback: the node comes back at an earlier finalised block than the one it had reached
+		head = forced[0].b
+	} else if lr, err := rp.C.LoadLFBRound(); err == nil {
 		if fb := f.byHash[lr.Hash]; fb != nil {
 			head = fb.b
 		} else if lr.Hash != rp.Genesis.Hash {
@@ -715,7 +719,7 @@ func (f *follower) restart(why string) {
 		fb.have = false
 	}
 	for _, fb := range f.blocks {
-		if fb.b.Round <= head.Round || f.lost || f.dead {
+		if fb.b.Round <= head.Round || fb.orphan || f.lost || f.dead {
 			continue
 		}
 		sn := f.syncNext
@@ -729,6 +733,56 @@ func (f *follower) restart(why string) {
 	}
 	if !f.lost && !f.dead && f.hold == 0 && len(f.blocks) > 0 {
 		f.finalizeRounds(f.blocks[len(f.blocks)-1].b.Round)
+	}
+}
+
+// fork re-finalises the round of the follower's LFB with a sibling block: the follower comes back from its
+// disk at the block before its LFB (an LFB rollback / a restart before the LFB record was persisted), the
+// primary abandons everything from that round on and assembles a sibling on the same parent — with no
+// transactions (variant 0: it ends at once) or with whatever transactions the plan brings next — and the chain
+// continues on the sibling, which goes through the same shipped finalisation path.
+func (f *follower) fork(r *ledger.Runner, variant int) {
+	if f.lost {
+		return
+	}
+	f.observe(-1)
+	if f.dead {
+		f.restart("before-fork")
+		if f.lost || f.dead {
+			return
+		}
+	}
+	lfb := f.rp.C.GetLatestFinalizedBlock()
+	x, p := f.byHash[lfb.Hash], (*fblk)(nil)
+	if x == nil || x.orphan || lfb.Round < 2 {
+		return
+	}
+	if p = f.byHash[x.b.PrevHash]; p == nil || p.orphan {
+		return
+	}
+	if _, err := ledger.Leaves(f.rp.C.GetStateDB(), p.b.ClientStateHash); err != nil {
+		return // the parent's state is below a prune version already: no node can go back there
+	}
+	n := 0
+	for _, fb := range f.blocks {
+		if !fb.orphan && fb.b.Round >= x.b.Round {
+			fb.orphan = true
+			n++
+		}
+	}
+	f.tr.Fault("fork/sibling-for-finalised-round")
+	f.tr.Event("c27 FORK at round=%d (lfb): %d blocks abandoned, back to round=%d, variant=%d", x.b.Round, n, p.b.Round, variant%2)
+	f.restart("lfb-rollback", p)
+	if f.lost || f.dead {
+		return
+	}
+	// the primary: drop the block under assembly and everything above the parent
+	r.BC = f.w.NewBlock(p.b, r.Blocks)
+	if variant%2 == 0 {
+		f.tr.Probe("fork/empty-sibling")
+		r.EndBlock(false)
+	} else {
+		f.tr.Probe("fork/sibling-with-other-transactions")
 	}
 }
 
@@ -958,6 +1012,7 @@ func gen27(sc ledger.Scenario) func(seed uint64, tier string) *sim.Plan {
 		var out []sim.Step
 		busy := 0 // remaining rounds of a churn burst
 		restartIn := -1
+		forkIn := 0
 		for rn := 1; rn <= rounds; rn++ {
 			if heavy && rn <= 100+count+3 {
 				// quiet phase: nothing that would prune early (no restart, no direct prune, no fault)
@@ -973,6 +1028,16 @@ func gen27(sc ledger.Scenario) func(seed uint64, tier string) *sim.Plan {
 			}
 			if nt.Intn(100) < 12 {
 				out = append(out, sim.Step{Op: "c27.sync", I: []int64{int64(nt.Range(1, 3))}})
+			}
+			if forkIn > 0 {
+				if forkIn--; forkIn == 0 {
+					// some rounds after a fork: prune as far as configuration allows, and let the worker run
+					out = append(out, sim.Step{Op: "c27.prune", I: []int64{0, 1}}, sim.Step{Op: "c27.tick", I: []int64{8}})
+				}
+			}
+			if rn > 6 && nt.Intn(100) < 6 {
+				out = append(out, sim.Step{Op: "c27.fork", I: []int64{int64(nt.Pick([]int{3, 2}))}})
+				forkIn = count + 5
 			}
 			if nt.Intn(100) < 12 {
 				out = append(out, sim.Step{Op: "c27.psync", I: []int64{int64(nt.Pick([]int{4, 2, 1, 1, 1, 1}))}})
@@ -1062,6 +1127,10 @@ func setup27(w *ledger.World, r *ledger.Runner) []ledger.Observer {
 		f.observe(-1)
 	}
 	r.Ops["c27.hold"] = func(r *ledger.Runner, st sim.Step) { f.hold = int(st.Int(0, 1)) % 12 }
+	r.Ops["c27.fork"] = func(r *ledger.Runner, st sim.Step) {
+		defer dbgPanic()
+		f.fork(r, int(st.Int(0, 0)))
+	}
 	r.Ops["c27.psync"] = func(r *ledger.Runner, st sim.Step) { f.psyncNext = 1 + int(st.Int(0, 0))%6 }
 	r.Ops["c27.sync"] = func(r *ledger.Runner, st sim.Step) { f.syncNext = int(st.Int(0, 1)) % 6 }
 	r.Ops["c27.tick"] = func(r *ledger.Runner, st sim.Step) {
@@ -1099,6 +1168,12 @@ func setup27(w *ledger.World, r *ledger.Runner) []ledger.Observer {
 			return
 		}
 		v := 1 + st.Int(0, 0)%lfb
+		if st.Int(1, 0) != 0 {
+			// as far as configuration allows: everything below LFB - prune_below_count
+			if v = lfb - f.count; v < 1 {
+				return
+			}
+		}
 		def := f.rp.Disk.Len("default")
 		f.pruneWindow(func() (int64, bool) { return v, true })
 		err := f.rp.C.GetStateDB().PruneBelowVersion(util.WithPruneStats(f.ctx), v)
